@@ -518,6 +518,38 @@ func (r *c09Run) checkShapesOwnFields(i int, cls string, booksOf map[string][]st
 		}
 		r.shape["q:parent-by-two-relations:"+op] = true
 	}
+	// --- two hops: the listed children of every parent are selected through their own relation
+	{
+		op := ops[rx.IntN(len(ops))]
+		age := 20 + rx.IntN(9)
+		q := fmt.Sprintf(`query { Library { _docID books(filter: {author: {age: {%s: %d}}}) { _docID } } }`, op, age)
+		data, ok := r.q(i, q)
+		if !ok {
+			return
+		}
+		want := map[string][]string{}
+		for l := range r.libs {
+			want[l] = nil
+		}
+		for b, bk := range r.books {
+			if !r.libs[bk.library] {
+				continue
+			}
+			if a, live := r.users[bk.author]; live && cmpOp(op, float64(a), float64(age)) {
+				want[bk.library] = append(want[bk.library], b)
+			}
+		}
+		for _, row := range rows(data, "Library") {
+			l := fmt.Sprint(row["_docID"])
+			w := append([]string{}, want[l]...)
+			sort.Strings(w)
+			if got := idsOf(row["books"]); canon(got) != canon(nonNil(w)) {
+				r.res.violate("C09", "relation-filter-differs", "two-hops:children-by-their-relation:"+op+"/"+cls, i, "%s: library %s lists %v, by the model %v", q, l, got, w)
+				return
+			}
+		}
+		r.shape["q:two-hops:children-by-their-relation:"+op] = true
+	}
 	// --- parents selected by a child field, with a limit on the listed children
 	{
 		op := ops[rx.IntN(len(ops))]
